@@ -33,8 +33,8 @@ ERRNO = {"read": ["EACCES", "EIO"], "open": ["EACCES", "ENOSPC"], "write": ["ENO
 
 CONFIGS = [("inplace", True, 1, True), ("inplace", False, 1, True), ("inplace", True, 2, True), ("inplace", False, 2, True),
            ("stdout", False, 1, True), ("stdout", False, 2, True), ("outfile", False, 1, True), ("outfile", False, 1, False)]
-# target kinds for the in-place configurations: the named path is a regular file, or a symbolic link to the file (the content read
-# through the named path must stay intact whatever the implementation does with links)
+# target kinds for the in-place configurations: the named path is a regular file, a symbolic link to the file, or a file with a second
+# hard link (the content read through the named path must stay intact whatever the implementation does with links)
 LINK_CONFIGS = [("inplace", True, 1, True), ("inplace", False, 1, True), ("inplace", False, 2, True)]
 INVS = ["TargetIntact", "NoTouchWithoutInplace", "FailureAtomic", "PerFileAllOrNothing", "Untouched", "Completed", "Dump"]
 
@@ -90,12 +90,16 @@ def materialise(sc: Scenario, new: str):
             open(os.path.join(root, name), "wb").write(content)
         else:
             content = OLD.encode()
-            if sc.link:
+            if sc.link is True:
                 os.makedirs(os.path.join(root, "real"), exist_ok=True)
                 open(os.path.join(root, "real", name), "wb").write(content)
                 os.symlink(os.path.join("real", name), os.path.join(root, name))
             else:
                 open(os.path.join(root, name), "wb").write(content)
+                if sc.link == "hard":
+                    # the file has a second name (hard link) elsewhere: whatever the tool does about links, the named path stays intact
+                    os.makedirs(os.path.join(root, "links"), exist_ok=True)
+                    os.link(os.path.join(root, name), os.path.join(root, "links", name))
         olds[f] = content
         if sc.stale:
             open(os.path.join(root, name + ".orig"), "wb").write(STALE)
@@ -156,7 +160,7 @@ def disk_state(root, names, olds, newb):
         st["tmp"][f] = cls(parts[0], f) if parts else "Absent"
     known = set(names) | {n + ".orig" for n in names}
     for e in os.listdir(root):
-        if e not in known and not e.endswith(".partial") and e not in ("real", "alias.md"):
+        if e not in known and not e.endswith(".partial") and e not in ("real", "alias.md", "links"):
             extra.append(e)
     return st, extra
 
@@ -305,7 +309,7 @@ def run(tier: str) -> int:
         # implementation-agnostic crash points: kill at EVERY file-system event of the fault-free run of each
         # configuration (whatever system calls the implementation happens to use)
         generic = []
-        for mode, backup, nfiles, outexists, link in [c + (False,) for c in CONFIGS] + [c + (True,) for c in LINK_CONFIGS]:
+        for mode, backup, nfiles, outexists, link in [c + (False,) for c in CONFIGS] + [c + (True,) for c in LINK_CONFIGS] + [c + ("hard",) for c in LINK_CONFIGS]:
             base = Scenario(0, mode, backup, nfiles, outexists, [False] * nfiles, "done", [], {})
             base.link = link
             for e in dry_events(base, newb):
